@@ -15,6 +15,7 @@ import (
 	"os"
 	"path/filepath"
 	"runtime"
+	"sort"
 	"strings"
 	"sync/atomic"
 	"time"
@@ -34,7 +35,18 @@ const (
 	nPos
 )
 
-var posName = []string{"before", "old-OnRestart", "new-OnStartup", "new-listener-wrapped", "old-OnShutdown", "after-return"}
+var gateName = []string{"before", "old-OnRestart", "new-OnStartup", "new-listener-wrapped", "old-OnShutdown", "after-return"}
+
+// Positions of an execution with R reloads: 0 = before, then five per reload (1+5r .. 5+5r).
+const maxReloads = 2
+const maxPos = 1 + 5*maxReloads
+
+func posName(p int) string {
+	if p == 0 {
+		return gateName[0]
+	}
+	return fmt.Sprintf("%s#%d", gateName[(p-1)%5+1], (p-1)/5+1)
+}
 
 type clientPlan struct{ dial, send, recv int }
 
@@ -83,7 +95,8 @@ func (c *client) step(s string) {
 // explorer state shared with the gate callbacks (one execution at a time)
 var (
 	reloading bool
-	doneAt    [nPos]bool
+	curReload int // index of the reload in progress
+	doneAt    [maxPos]bool
 	clients   []*client
 	reached   []string
 )
@@ -93,7 +106,7 @@ func runPosition(p int) {
 		return
 	}
 	doneAt[p] = true
-	reached = append(reached, posName[p])
+	reached = append(reached, posName(p))
 	for _, c := range clients {
 		if c.plan.dial == p {
 			c.step("dial")
@@ -120,7 +133,7 @@ func gate(p int) func() error {
 	return func() error {
 		if reloading {
 			// positions are visited in order; a position whose gate is not reached in this kind of reload is run at the next one
-			for q := posBefore + 1; q <= p; q++ {
+			for q := 5*curReload + 1; q <= 5*curReload+p; q++ {
 				runPosition(q)
 			}
 		}
@@ -179,9 +192,18 @@ type c07case struct {
 	Problem  string   `json:"problem"`
 }
 
+func keys(m map[string]bool) []string {
+	var l []string
+	for k := range m {
+		l = append(l, k)
+	}
+	sort.Strings(l)
+	return l
+}
+
 func main() {
 	rep := kit.NewReport("C07", "model_checking",
-		"two clients (one per listen address) x every non-decreasing placement of dial / send / receive over 6 positions of a reload (before, old OnRestart, new OnStartup, new listener about to serve, old OnShutdown, after return) - all 56 placements for each client (3136 pairs) - x 5 reload kinds (ok, failing at parse, setup, startup callback, listen), on a real casket.Start/Instance.Restart over loopback sockets; every client must receive one complete response from the old or the new configuration (new if it dialled after a successful return, old after a failed reload), and after every execution the descriptors of the listening sockets and fresh probes must show exactly the expected configuration; distinct_nontrivial = outcome classes")
+		"(1) two clients (one per listen address) x every non-decreasing placement of dial / send / receive over 6 positions of a reload (before, old OnRestart, new OnStartup, new listener about to serve, old OnShutdown, after return) - all 56 placements for each client (3136 pairs) - x 5 reload kinds (ok, failing at parse, setup, startup callback, listen), on a real casket.Start/Instance.Restart over loopback sockets; every client must receive one complete response from the old or the new configuration (new if it dialled after a successful return, old after a failed reload), and after every execution the descriptors of the listening sockets and fresh probes must show exactly the expected configuration; (2) two reloads in a row (pairs of kinds; quick: 4 pairs of kinds and 3 straddling plans, thorough: all 25 pairs and 6 straddling plans) with one client at every placement over the 11 positions and the other straddling both reloads: a client must be answered by a configuration in force between its dial and its answer; distinct_nontrivial = outcome classes")
 	if !rep.IsWorker() {
 		rep.Assume("interleavings inside net/http's accept/serve loops and the kernel backlog are not enumerated (whoever accepts serves its own configuration); client steps run while the reload is held inside its own callbacks")
 		rep.RunWorkers(16)
@@ -222,15 +244,16 @@ func main() {
 		}
 		return s
 	}
-	var plans []clientPlan
-	for d := 0; d < nPos; d++ {
-		for s := d; s < nPos; s++ {
-			for r := s; r < nPos; r++ {
-				plans = append(plans, clientPlan{d, s, r})
+	mkPlans := func(nPos int) (plans []clientPlan) {
+		for d := 0; d < nPos; d++ {
+			for s := d; s < nPos; s++ {
+				for r := s; r < nPos; r++ {
+					plans = append(plans, clientPlan{d, s, r})
+				}
 			}
 		}
+		return
 	}
-	second := plans
 	kinds := []string{"ok", "parse", "setup", "startup", "listen"}
 	states := map[string]bool{}
 	// watchdog: an execution that does not finish within 90 s is reported as a hang and ends the worker
@@ -246,115 +269,171 @@ func main() {
 			}
 		}
 	}()
-	item := 0
-	for _, kind := range kinds {
-		for _, pl0 := range plans {
-			item++
-			if !rep.Mine(item) {
-				continue
-			}
-			if rep.Expired() {
-				rep.Capped("deadline")
+	var transitions int64
+	// one execution: start v1, then the reloads of seq (configuration v2, v3, ...) with the client steps placed
+	// at their positions, then the checks of the final state and Stop
+	execute := func(seq []string, pl0, pl1 clientPlan, sample bool) {
+		nP := 1 + 5*len(seq)
+		label := strings.Join(seq, ",")
+		desc := fmt.Sprintf("reloads=%s client0=%v client1=%v", label, pl0, pl1)
+		execDesc.Store(&desc)
+		execStart.Store(time.Now().UnixNano())
+		in1 := casket.CasketfileInput{Contents: []byte(config(1, "")), Filepath: filepath.Join(dir, "Casketfile"), ServerTypeName: "http"}
+		reloading = false
+		inst, err := casket.Start(in1)
+		if err != nil {
+			if rep.ViolationCount() > 0 {
+				// an earlier execution left listeners behind (already reported): this worker cannot continue
+				rep.Capped("worker stopped: ports still bound after a reported violation")
 				rep.Finish()
 			}
-			for _, pl1 := range second {
+			rep.Broken("initial start: %v", err)
+		}
+		clients = []*client{{port: p0, plan: pl0}, {port: p1, plan: pl1}}
+		doneAt = [maxPos]bool{}
+		reached = nil
+		runPosition(0)
+		// verAt[p]: the configuration versions that may answer a connection made at position p
+		// (the current one, and the one a successful reload is installing while p lies inside it)
+		cur := 1
+		verAt := make([][]int, nP)
+		verAt[0] = []int{1}
+		var problems []string
+		for r, kind := range seq {
+			curReload = r
+			reloading = true
+			in2 := casket.CasketfileInput{Contents: []byte(config(r+2, kind)), Filepath: filepath.Join(dir, "Casketfile"), ServerTypeName: "http"}
+			ni, rerr := inst.Restart(in2)
+			reloading = false
+			for q := 5*r + 1; q <= 5*r+5; q++ {
+				runPosition(q) // positions whose gates were not reached, then "after return"
+			}
+			ok := rerr == nil
+			if ok != (kind == "ok") {
+				problems = append(problems, fmt.Sprintf("reload/%s: Restart #%d returned error=%v", kind, r+1, rerr))
+			}
+			for q := 5*r + 1; q <= 5*r+4; q++ {
+				verAt[q] = []int{cur}
+				if kind == "ok" {
+					verAt[q] = append(verAt[q], r+2)
+				}
+			}
+			if ok {
+				inst = ni
+			}
+			if kind == "ok" {
+				cur = r + 2
+			}
+			verAt[5*r+5] = []int{cur}
+		}
+		rep.Eval(1)
+		transitions += int64(nP)
+		var obs []string
+		for ci, c := range clients {
+			o := c.result
+			if c.err != "" {
+				o = c.err
+			}
+			obs = append(obs, fmt.Sprintf("client%d(dial@%s,send@%s,recv@%s): %s", ci, posName(c.plan.dial), posName(c.plan.send), posName(c.plan.recv), o))
+			// a connection made at position d and answered by position e is served by whoever accepts it in between
+			allowed := map[string]bool{}
+			for q := c.plan.dial; q <= c.plan.recv; q++ {
+				for _, v := range verAt[q] {
+					allowed[fmt.Sprintf("204 v%d", v)] = true
+				}
+			}
+			switch {
+			case c.err != "":
+				problems = append(problems, fmt.Sprintf("request-lost: client %d (%s)", ci, c.err))
+			case !strings.HasPrefix(c.result, "204 v"):
+				problems = append(problems, fmt.Sprintf("malformed-response: client %d got %q", ci, c.result))
+			case !allowed[c.result]:
+				problems = append(problems, fmt.Sprintf("answered-by-a-configuration-not-in-force: client %d got %q, configurations in force between its dial and its answer: %v", ci, c.result, keys(allowed)))
+			}
+		}
+		want := fmt.Sprintf("204 v%d", cur)
+		for _, p := range []int{p0, p1} {
+			if n := listenFDs(p); n != 1 {
+				problems = append(problems, fmt.Sprintf("listener-descriptors: port %d is held by %d descriptors after the reload returned, want 1", p, n))
+			}
+			for k := 0; k < 4; k++ {
+				if got := probe(p); got != want {
+					problems = append(problems, fmt.Sprintf("probe-after-reload: port %d answered %q, want %q", p, got, want))
+					break
+				}
+			}
+		}
+		casket.Stop()
+		for _, p := range []int{p0, p1} {
+			if n := listenFDs(p); n != 0 {
+				problems = append(problems, fmt.Sprintf("listener-left-open-after-stop: port %d still has %d listening descriptors", p, n))
+			}
+		}
+		execStart.Store(0)
+		states[fmt.Sprintf("%s|%v|%v", label, reached, obs)] = true
+		if len(problems) > 0 {
+			kindSig := strings.SplitN(problems[0], ":", 2)[0]
+			rep.Violation("C07/"+kindSig+"/reload="+label, strings.Join(problems, "; "), c07case{label, []string{fmt.Sprint(pl0), fmt.Sprint(pl1)}, reached, obs, strings.Join(problems, "; ")})
+		}
+		rep.Class(fmt.Sprintf("reload=%s/c0:%s/c1:%s", label, clients[0].result, clients[1].result))
+		if sample {
+			rep.Sample(map[string]interface{}{"reloads": seq, "positions_reached": reached, "observed": obs})
+		}
+		// instances that failed to stop cleanly must not leak into the next execution
+		if n := len(casket.Instances()); n != 0 {
+			rep.Broken("instances left after Stop: %d", n)
+		}
+	}
+	item := 0
+	next := func() bool {
+		item++
+		if !rep.Mine(item) {
+			return false
+		}
+		if rep.Expired() {
+			rep.Capped("deadline")
+			rep.Finish()
+		}
+		return true
+	}
+	// (1) one reload: every pair of client plans x every reload kind
+	plans := mkPlans(6)
+	for _, kind := range kinds {
+		for _, pl0 := range plans {
+			if !next() {
+				continue
+			}
+			for _, pl1 := range plans {
 				if only := os.Getenv("C07_ONLY"); only != "" && only != fmt.Sprintf("%s:%v:%v", kind, pl0, pl1) {
 					continue
 				}
-				// ---- one execution ----
-				desc := fmt.Sprintf("reload=%s client0=%v client1=%v", kind, pl0, pl1)
-				execDesc.Store(&desc)
-				execStart.Store(time.Now().UnixNano())
-				in1 := casket.CasketfileInput{Contents: []byte(config(1, "")), Filepath: filepath.Join(dir, "Casketfile"), ServerTypeName: "http"}
-				reloading = false
-				inst, err := casket.Start(in1)
-				if err != nil {
-					if rep.ViolationCount() > 0 {
-						// an earlier execution left listeners behind (already reported): this worker cannot continue
-						rep.Capped("worker stopped: ports still bound after a reported violation")
-						rep.Finish()
+				execute([]string{kind}, pl0, pl1, kind == "ok" && pl0 == (clientPlan{posRestartCB, posNewListener, posOldShutdown}) && pl1 == plans[0])
+			}
+		}
+	}
+	// (2) two reloads in a row, every pair of kinds: one client takes every placement over the 11 positions,
+	// the other one of a few plans that straddle both reloads (quick: successful/failed pairs with a reduced plan set)
+	plans2 := mkPlans(11)
+	straddle := []clientPlan{{0, 0, 0}, {0, 3, 10}, {2, 6, 9}, {4, 8, 8}, {5, 5, 10}, {7, 9, 10}}
+	for _, k1 := range kinds {
+		for _, k2 := range kinds {
+			if !rep.Thorough() && !((k1 == "ok" || k1 == "startup") && (k2 == "ok" || k2 == "listen")) {
+				continue
+			}
+			for pi, pl0 := range plans2 {
+				if !next() {
+					continue
+				}
+				for si, pl1 := range straddle {
+					if !rep.Thorough() && si%2 != 0 {
+						continue
 					}
-					rep.Broken("initial start: %v", err)
-				}
-				clients = []*client{{port: p0, plan: pl0}, {port: p1, plan: pl1}}
-				doneAt = [nPos]bool{}
-				reached = nil
-				runPosition(posBefore)
-				reloading = true
-				in2 := casket.CasketfileInput{Contents: []byte(config(2, kind)), Filepath: filepath.Join(dir, "Casketfile"), ServerTypeName: "http"}
-				ni, rerr := inst.Restart(in2)
-				reloading = false
-				for q := posBefore + 1; q < nPos; q++ {
-					runPosition(q) // positions whose gates were not reached, then "after return"
-				}
-				rep.Eval(1)
-				ok := rerr == nil
-				if ok {
-					inst = ni
-				}
-				expectOK := kind == "ok"
-				var problems []string
-				if ok != expectOK {
-					problems = append(problems, fmt.Sprintf("reload/%s: Restart returned error=%v", kind, rerr))
-				}
-				var obs []string
-				for ci, c := range clients {
-					o := c.result
-					if c.err != "" {
-						o = c.err
-					}
-					obs = append(obs, fmt.Sprintf("client%d(dial@%s,send@%s,recv@%s): %s", ci, posName[c.plan.dial], posName[c.plan.send], posName[c.plan.recv], o))
-					switch {
-					case c.err != "":
-						problems = append(problems, fmt.Sprintf("request-lost: client %d (%s)", ci, c.err))
-					case !ok && c.result != "204 v1":
-						problems = append(problems, fmt.Sprintf("failed-reload-not-answered-by-old-config: client %d got %q", ci, c.result))
-					case ok && c.plan.dial == posAfter && c.result != "204 v2":
-						problems = append(problems, fmt.Sprintf("request-after-successful-reload-answered-by-old-config: client %d got %q", ci, c.result))
-					case c.result != "204 v1" && c.result != "204 v2":
-						problems = append(problems, fmt.Sprintf("malformed-response: client %d got %q", ci, c.result))
-					}
-				}
-				want := "204 v1"
-				if ok {
-					want = "204 v2"
-				}
-				// settle: the old instance's connections drain within the graceful timeout
-				for _, p := range []int{p0, p1} {
-					if n := listenFDs(p); n != 1 {
-						problems = append(problems, fmt.Sprintf("listener-descriptors: port %d is held by %d descriptors after the reload returned, want 1", p, n))
-					}
-					for k := 0; k < 4; k++ {
-						if got := probe(p); got != want {
-							problems = append(problems, fmt.Sprintf("probe-after-reload: port %d answered %q, want %q", p, got, want))
-							break
-						}
-					}
-				}
-				casket.Stop()
-				for _, p := range []int{p0, p1} {
-					if n := listenFDs(p); n != 0 {
-						problems = append(problems, fmt.Sprintf("listener-left-open-after-stop: port %d still has %d listening descriptors", p, n))
-					}
-				}
-				execStart.Store(0)
-				states[fmt.Sprintf("%s|%v|%v", kind, reached, obs)] = true
-				if len(problems) > 0 {
-					kindSig := strings.SplitN(problems[0], ":", 2)[0]
-					rep.Violation("C07/"+kindSig+"/reload="+kind, strings.Join(problems, "; "), c07case{kind, []string{fmt.Sprint(pl0), fmt.Sprint(pl1)}, reached, obs, strings.Join(problems, "; ")})
-				}
-				rep.Class(fmt.Sprintf("reload=%s/c0:%s/c1:%s", kind, clients[0].result, clients[1].result))
-				if kind == "ok" && pl0 == (clientPlan{posRestartCB, posNewListener, posOldShutdown}) && pl1 == second[0] {
-					rep.Sample(map[string]interface{}{"reload": kind, "positions_reached": reached, "observed": obs})
-				}
-				// instances that failed to stop cleanly must not leak into the next execution
-				if n := len(casket.Instances()); n != 0 {
-					rep.Broken("instances left after Stop: %d", n)
+					execute([]string{k1, k2}, pl0, pl1, k1 == "ok" && k2 == "ok" && pi == 150 && si == 2)
 				}
 			}
 		}
 	}
 	rep.AddInt("states", int64(len(states)))
-	rep.AddInt("transitions", rep.Evals()*int64(nPos))
+	rep.AddInt("transitions", transitions)
 	rep.Finish()
 }
